@@ -497,7 +497,7 @@ def lex_stdout(stdout, has_columns):
         if not named:
             c1 = rest.lstrip("│").strip()
             allc = [c1] + cells
-            recs.append({"t": "cont", "cells": allc, "cells_cp": [cp(c) for c in allc], "raw_cp": cp(raw)})
+            recs.append({"t": "cont", "groups": prefix, "cells": allc, "cells_cp": [cp(c) for c in allc], "raw_cp": cp(raw)})
             continue
         if "  " in rest:
             name, tail = rest.split("  ", 1)
